@@ -81,11 +81,17 @@ def export_check(run, c):
                 run.violation(f"scope '{s}' is coloured before its caller '{k}'", {"kind": "scope_order", "source": c.prog.text(), "options": c.opts, "order": order, "called_from": cf})
     blocked = {}
     mapping = ra["mapping"]
-    for sc in ra["scopes"]:
-        name = sc["scope"]
+    recs = {sc["scope"]: sc for sc in ra["scopes"]}
+    mapped_earlier = set()
+    for name in order:
         parent = set()
         for k in cf.get(name, []):
             parent |= blocked.get(k, set())
+        sc = recs.get(name)
+        if sc is None:
+            # a scope without register symbols passes on what its callers block
+            blocked[name] = parent
+            continue
         avail = sorted(set(range(16)) - parent)
         if avail != sc["available"]:
             run.violation(f"scope '{name}': available registers {sc['available']} differ from all16 minus the callers' registers {avail}",
@@ -97,6 +103,8 @@ def export_check(run, c):
             if v in seen_vregs or not str(v).startswith("__register."):
                 continue
             seen_vregs.add(v)
+            if v in mapped_earlier:
+                continue            # shares the register of a symbol of an earlier scope (argument of an inlined call, alias)
             want = f"r{sc['available'][s['color']]}" if s["color"] < len(sc["available"]) else None
             got = mapping.get(v)
             if got is None:
@@ -110,6 +118,7 @@ def export_check(run, c):
             else:
                 used.add(int(m.group(1)))
         blocked[name] = used | parent
+        mapped_earlier |= seen_vregs
         # overlapping lifetimes inside the scope must have different colours (the model's theorem,
         # re-checked on the exported data)
         ss = [s for s in sc["symbols"]]
@@ -169,7 +178,12 @@ def interference(c):
                 succ[i].append(i + 1)
         elif op == "jr":
             # jump table: any following instruction up to the end label may be reached
-            succ[i] += list(range(i + 1, min(n, i + 24)))
+            k = i + 1
+            while k < n and not vcode[k]["op"].strip().endswith(":") and k < i + 40:
+                succ[i].append(k)
+                k += 1
+            if k < n:
+                succ[i].append(k)
         elif sig and "t" in sig:
             t = toks[-1] if toks else None
             if isinstance(t, str) and t in label_at:
@@ -215,7 +229,7 @@ def interference(c):
     # calls to other owners: registers written in the callee (transitively) vs live across the call
     writes = {}
     for i, ins in enumerate(vcode):
-        writes.setdefault(ins.get("owner"), set()).update(phys(d) for d in defs[i])
+        writes.setdefault(ins.get("owner"), set()).update(defs[i])
     callees = {}
     for ci, tgt in calls.items():
         a, b = vcode[ci].get("owner"), vcode[tgt].get("owner")
@@ -236,7 +250,8 @@ def interference(c):
         across = {w for w in live_out[ci]} - defs[ci]
         w_callee = trans(b)
         for w in across:
-            if phys(w) in w_callee:
+            # (a write through the same virtual register is an assignment to a global, not a clobber)
+            if any(d != w and phys(d) == phys(w) for d in w_callee):
                 probs.append({"at": ci, "instruction": "jal " + str(vcode[ci]["in"][0].get("val")), "clobbers_live": w,
                               "register": phys(w), "callee": b, "line": vcode[ci].get("line")})
     return probs
@@ -308,6 +323,20 @@ def pressure_programs(rng, n):
     return out
 
 
+class TextProg:
+    """a program given as text (or as a dict of modules) rather than as a generator tree"""
+    features = frozenset()
+
+    def __init__(self, src):
+        self.src = src
+
+    def text(self):
+        return self.src if isinstance(self.src, str) else self.src.get("", "")
+
+    def dump(self):
+        return repr(self.src)
+
+
 def main(tier, seed):
     run = core.Run("C04", tier, seed, "proof")
     core.setup_impl_import()
@@ -318,6 +347,8 @@ def main(tier, seed):
     progs += [(f"gen/{i}", p) for i, p in enumerate(progen.generate(rng, 50 if tier == "quick" else 800))]
     from .c01 import load_corpus, compile_rot
     progs += load_corpus("clean")
+    from .. import idioms
+    progs += idioms.programs(rng)
     vns = ["default", "noinline", "compact", "pushpop"]
     cases = compile_rot([((name, p), [vns[i % 4], vns[(i + 1) % 4]] if tier == "quick" else vns) for i, (name, p) in enumerate(progs)])
     oks = [c for c in cases if c.ok]
@@ -344,6 +375,28 @@ def main(tier, seed):
         for m in re.finditer(r"\br(\d+)\b", "\n".join(l.split("#")[0] for l in c.result["code"].split("\n"))):
             if int(m.group(1)) > 15:
                 run.violation(f"emitted text uses register r{m.group(1)}", {"kind": "range", "source": c.prog.text(), "options": c.opts, "code": c.result["code"]})
+    # the repository's own programs and the text corpus (constructs outside the generator's grammar:
+    # devices built from computed ids, Stack(ref_id=..), libraries): allocation re-derived, interference check
+    tjobs, tmeta = [], []
+    for name, src in impl.repo_programs():
+        if "error" in name:
+            continue
+        for vn in (["default", "noinline"] if tier == "quick" else vns):
+            tjobs.append((src, pipeline.VECTORS[vn]))
+            tmeta.append((name, src, vn))
+    for (name, src, vn), r in zip(tmeta, impl.compile_many(tjobs)):
+        if "code" not in r:
+            continue
+        c = pipeline.Case(name, TextProg(src), vn, pipeline.VECTORS[vn], r)
+        run.count("evaluations")
+        kinds["text_programs"] = kinds.get("text_programs", 0) + 1
+        export_check(run, c)
+        for p in interference(c)[:3]:
+            kinds["interference_problems"] += 1
+            rec = dict(p)
+            rec.update({"kind": "interference", "program": name, "source": src if isinstance(src, str) else src.get(""), "options": c.opts,
+                        "option_set": vn, "code": r["code"], "features": ["text_program"]})
+            run.violation(f"virtual register {p['clobbers_live']} is live while its physical register {p['register']} is overwritten ({p['instruction']})", rec)
     # behaviour of the register-pressure programs (a clobbered value changes an effect)
     try:
         pipeline.diff_cases(oks, name="c04d")
